@@ -8,7 +8,7 @@
 
 use simcore::driver::{case_text, Replay};
 use simcore::emit::{builder_module, layout_module, main_rs, shard_cargo_toml, workspace_cargo_toml, ShardMember};
-use simcore::layout::{gen_bad_enum_probes, gen_default_probes, gen_layout, gen_mismatch_probes, gen_probes, is_native, storage_bits, GenOpts, Layout};
+use simcore::layout::{gen_bad_enum_probes, gen_default_probes, gen_layout, gen_mismatch_probes, gen_narrow_probes, gen_probes, is_native, storage_bits, GenOpts, Layout};
 use simcore::prng::{mix, Rng, TAG_LAYOUT, TAG_PROBE};
 use simcore::shrink::{reduce_layout, referenced_fields};
 use std::fs;
@@ -53,6 +53,8 @@ const TAG_MISMATCH: u64 = 0x4d49_534d;
 const TAG_DEFAULT: u64 = 0x4445_4641;
 pub const BADENUM_ID_BASE: u32 = 4_000_000;
 const TAG_BADENUM: u64 = 0x4241_4445;
+pub const NARROW_ID_BASE: u32 = 5_000_000;
+const TAG_NARROW: u64 = 0x4e41_5252;
 
 fn probes_for(prop: &str, seed: u64, which: &str) -> Vec<Layout> {
     let mut out = Vec::new();
@@ -85,6 +87,9 @@ fn probes_for(prop: &str, seed: u64, which: &str) -> Vec<Layout> {
             // class E: fields whose bitenum breaks the bitenum rules
             let mut rng = Rng::new(mix(&[seed, TAG_BADENUM, n as u64]));
             out.extend(gen_bad_enum_probes(&mut rng, n, BADENUM_ID_BASE + n * 100));
+            // class F: fields whose type is narrower than the bits they select
+            let mut rng = Rng::new(mix(&[seed, TAG_NARROW, n as u64]));
+            out.extend(gen_narrow_probes(&mut rng, n, NARROW_ID_BASE + n * 100));
         }
     }
     out
